@@ -392,6 +392,11 @@ def run(out, drv, info):
                        'several snapshots: a removed snapshot object is indistinguishable from a snapshot never taken (reference = the honest objects under the locations '
                        'still listed); when `Gen.snapLoadNeverSkipsListedOwn` is false the model takes the reading that the zero-length object is dropped']
     ctx = mp.get_context('fork')
+    # (started first, collected last: children of their own) the same kind of damaged repositories restored by an interpreter that runs optimised (-O)
+    from concurrent.futures import ThreadPoolExecutor as _TP
+    n_opt = 4 if out.tier == 'quick' else 40
+    _opt_ex = _TP(4)
+    _opt_futs = [_opt_ex.submit(w_repo_optimised, (out.seed, 7000 + i, out.tier)) for i in range(n_opt)]
     with ctx.Pool(min(16, os.cpu_count() or 4)) as pool:
         a = pool.map_async(w_repo, [(out.seed, i, out.tier) for i in range(n_repo)], chunksize=1)
         b = pool.map_async(w_tagged, [(out.seed, i, out.tier) for i in range(n_tag)], chunksize=2)
@@ -451,6 +456,20 @@ def run(out, drv, info):
                               f'chunk object {ch["j"]} at the location of chunk {ch["i"]}: restore → {ch["real"]}', {'kind': 'tagged', 'seed': out.seed, 'idx': tg['idx'], 'tier': out.tier})
     judge_sessions(out, drv, sessions, tsessions)
     M.judge(out, drv, multis)
+    # the same damaged repositories restored by an interpreter that runs optimised (-O): own indices
+    opts = [f.result() for f in _opt_futs]
+    _opt_ex.shutdown()
+    for res in opts:
+        if 'infra' in res:
+            out.count('optimised-interpreter:infra')
+            out.extra.setdefault('infra_errors', []).append('optimised child: ' + str(res['infra']))
+            continue
+        out.count('optimised-interpreter:repositories' + ('' if res.get('optimised') else ':NOT-OPTIMISED'))
+        for kinds, cls in res['cases']:
+            out.case({'optimised': True, 'idx': res['idx'], 'kinds': kinds, 'outcome': cls}, True)
+            out.count('optimised-interpreter:outcome:' + str(cls))
+        for v in res['violations']:
+            out.violation(v[0] + ':python-O', 'under an interpreter started with -O: ' + v[1], {'kind': 'repo-O', 'seed': out.seed, 'idx': res['idx'], 'tier': out.tier})
 
 
 def judge_sessions(out, drv, sessions, tsessions):
@@ -526,6 +545,33 @@ def judge_sessions(out, drv, sessions, tsessions):
                 out.traces_validated += 1
 
 
+def w_repo_optimised(arg):
+    """the damaged-repository cases of `w_repo` in a child INTERPRETER started with -O (PYTHONOPTIMIZE: `assert` statements are not
+    compiled — what cron wrappers and 'production' images set): verification must not live in code the interpreter may drop.
+    → {'idx', 'violations', 'cases'} (violations only; the tie is the default interpreter's)"""
+    import subprocess
+    import sys
+    from .. import common
+    seed, idx, tier = arg
+    code = ('import json, os, sys\n'
+            'from harness.props import c04\n'
+            'assert False, "asserts are compiled: this interpreter does not run optimised"\n' if False else
+            'import json, os, sys\n'
+            'from harness.props import c04\n'
+            'res = c04.w_repo((%d, %d, %r))\n'
+            'os.write(1, ("\\n@@RESULT " + json.dumps({"idx": res["idx"], "optimised": not __debug__, "violations": res["violations"], '
+            '"cases": [[c["kinds"], c["outcome"].get("class")] for c in res["cases"]]}, default=str) + "\\n").encode())\n'
+            'os._exit(0)\n') % (seed, idx, tier)
+    try:
+        p = subprocess.run([sys.executable, '-O', '-c', code], cwd=str(common.VERIF), capture_output=True, text=True, timeout=300)
+    except subprocess.TimeoutExpired:
+        return {'idx': idx, 'infra': 'timeout'}
+    for line in p.stdout.splitlines():
+        if line.startswith('@@RESULT '):
+            return json.loads(line[len('@@RESULT '):])
+    return {'idx': idx, 'infra': (p.stderr or p.stdout)[-300:]}
+
+
 def _in_child(fn, arg):
     """run a worker in a forked child: an aborted restore leaves replicat's loader threads blocked for ever, which would hang the
     interpreter of the calling process at exit"""
@@ -549,6 +595,11 @@ def replay(path, drv):
                     bad += 1
                     print('disagreement', ci, case['ops'], b)
         return 1 if (res['violations'] or bad) else 0
+    if rp.get('kind') == 'repo-O':
+        res = w_repo_optimised((rp['seed'], rp['idx'], rp.get('tier', 'quick')))
+        for v in res.get('violations', []):
+            print('violation', v[0], v[1])
+        return 1 if res.get('violations') else 0
     if rp.get('kind') == 'tagged':
         res = _in_child(w_tagged, (rp['seed'], rp['idx'], rp.get('tier', 'quick')))
         for ch in res['checks']:
